@@ -66,6 +66,10 @@ type regexpPattern struct {
 
 	regexpWrapper  *regexpWrapper
 	regexp2Wrapper *regexp2Wrapper
+
+	// the pattern can match the empty string: regexp.FindAll* drops an empty match that abuts the previous match
+	// ("ab".match(/a*/g) must be ["a", "", ""]), so such patterns are iterated by regexp2
+	mayMatchEmpty bool
 }
 
 type regexpResult struct {
@@ -160,7 +164,7 @@ func (p *regexpPattern) findAllSubmatchIndex(s String, start int, limit int, sti
 	if p.regexpWrapper == nil {
 		return p.regexp2Wrapper.findAllSubmatchIndex(s, start, limit, sticky, p.unicode)
 	}
-	if start == 0 {
+	if start == 0 && (limit == 1 || !p.mayMatchEmpty) {
 		a, u := devirtualizeString(s)
 		if u == nil {
 			return p.regexpWrapper.findAllSubmatchIndex(string(a), limit, sticky)
@@ -203,6 +207,8 @@ func (p *regexpPattern) clone() *regexpPattern {
 		dotAll:     p.dotAll,
 		sticky:     p.sticky,
 		unicode:    p.unicode,
+
+		mayMatchEmpty: p.mayMatchEmpty,
 	}
 	if p.regexpWrapper != nil {
 		ret.regexpWrapper = p.regexpWrapper.clone()
@@ -377,6 +383,10 @@ func (r *regexp2Wrapper) findAllSubmatchIndexUTF16(s String, start, limit int, s
 				break
 			}
 			start = result.indexes[1]
+			if result.indexes[0] == start {
+				// empty match: the next attempt is made one code unit further (AdvanceStringIndex)
+				start++
+			}
 		}
 
 		results = append(results, result)
@@ -463,6 +473,14 @@ func (r *regexp2Wrapper) findAllSubmatchIndexUnicode(s unicodeString, start, lim
 				break
 			}
 			start = result.indexes[1]
+			if result.indexes[0] == start {
+				// empty match: the next attempt is made one code point further (AdvanceStringIndex)
+				if next := groups[0].RuneIndex + 1; next < len(posMap) {
+					start = posMap[next]
+				} else {
+					start++
+				}
+			}
 		}
 
 		results = append(results, result)
